@@ -109,7 +109,7 @@ def cases(tier, seed, prop):
             for _ in range(rnd.randint(1, 3)): s = gens.mutate(rnd, s, gens.CSSDOC_ALPHA)
             if len(s) <= 160: out.append({'s': s, 'g': 'mutdoc'})
     if prop == 'C10':
-        n = 600 if tier == 'quick' else 10000
+        n = 1800 if tier == 'quick' else 10000
         while len(out) < n:
             if rnd.random() < .25:
                 # deep trees: chains of nested rules that are not the first child of their parent, several top-level rules
